@@ -22,17 +22,28 @@ type probe struct {
 	V tym.Cps `json:"v"`
 }
 
+// a vector is one chain with its probes or, with grp, several chains that are
+// compiled together as the leaves of one module set
 type vector struct {
 	Fam    int       `json:"fam"`
 	Chain  tym.Chain `json:"chain"`
 	Probes []probe   `json:"probes"`
+	Grp    []vector  `json:"grp"`
 }
 
+func (v vector) members() []vector {
+	if len(v.Grp) > 0 {
+		return v.Grp
+	}
+	return []vector{v}
+}
+
+// one result per vector; Grp has one observation per member (ids ID*64 + member index)
 type result struct {
-	ID   int    `json:"id"`
-	File string `json:"file"`
-	Line int    `json:"line"`
-	tym.Obs
+	ID   int       `json:"id"`
+	File string    `json:"file"`
+	Line int       `json:"line"`
+	Grp  []tym.Obs `json:"grp"`
 }
 
 func main() {
@@ -57,7 +68,11 @@ func render() {
 		fmt.Fprintln(os.Stderr, err)
 		os.Exit(2)
 	}
-	mods := tym.Render(v.Chain)
+	cs := []tym.Chain{}
+	for _, m := range v.members() {
+		cs = append(cs, m.Chain)
+	}
+	mods := tym.Render(cs)
 	names := []string{}
 	for n := range mods {
 		names = append(names, n)
@@ -118,11 +133,17 @@ func run(args []string) {
 					fmt.Fprintf(os.Stderr, "%s:%d: %v\n", j.file, j.line, err)
 					os.Exit(2)
 				}
-				lex := make([]tym.Cps, len(v.Probes))
-				for k, p := range v.Probes {
-					lex[k] = p.V
+				ms := v.members()
+				cs := make([]tym.Chain, len(ms))
+				lex := make([][]tym.Cps, len(ms))
+				for mi, m := range ms {
+					cs[mi] = m.Chain
+					lex[mi] = make([]tym.Cps, len(m.Probes))
+					for k, p := range m.Probes {
+						lex[mi][k] = p.V
+					}
 				}
-				r.Obs = tym.Observe(v.Chain, lex, *yang)
+				r.Grp = tym.Observe(cs, lex, *yang)
 				results[i] = r
 			}
 		}()
